@@ -11,7 +11,7 @@ RULE = ("case = (matrix a, matrix b, ignore settings (comments, attributes, defi
         "(frame: added/deleted/length/id/format/name/comment/sender/attribute/signal group; signal: added/deleted/start/width/"
         "factor/offset/min/max/byte order/sign/multiplex/unit/comment/receiver/attribute/value table; ECU: added/deleted/comment/"
         "attribute; definitions of all four kinds: added/deleted/definition/default; global attribute; global value table), or an "
-        "unrelated matrix; both operand orders are compared. Numbers include values around 2^32 (the next half step differs in the tenth digit), value texts include characters outside ASCII, frames added with the number of an existing frame in the other format, definitions edited inside their type (ENUM values, INT range). Non-trivial = distinct case with b != a.")
+        "The two matrices are compared in both orders, and once more, as the same objects. unrelated matrix; both operand orders are compared. Numbers include values around 2^32 (the next half step differs in the tenth digit), value texts include characters outside ASCII, frames added with the number of an existing frame in the other format, definitions edited inside their type (ENUM values, INT range). Non-trivial = distinct case with b != a.")
 PARTIAL = ["numeric fields are compared as doubles by the code; generated values are multiples of 0.5 (exactly representable), "
            "modelled as integers", "the ref/changes payload of result nodes (object references, old/new texts) is not compared, only "
            "(result, type) and the tree shape", "cancompare's stdout is dump_result of the same tree; the CLI flag mapping is compared separately (op 'flags')"]
@@ -376,12 +376,19 @@ def observe(case):
                 ref._frames_dict_id_extend = dict(getattr(db, "_frames_dict_id_extend", {}))
                 return ref
         return build(me)
-    ab = canmatrix.compare.compare_db(built("a"), built("b"), ignore)
-    ba = canmatrix.compare.compare_db(built("b"), built("a"), ignore)
-    return {"ab": tree(ab), "ba": tree(ba)}
+    # the two matrices are compared in both orders as the same objects: comparing reads its operands, it does not change them
+    A, B = built("a"), built("b")
+    ab = tree(canmatrix.compare.compare_db(A, B, ignore))
+    ba = tree(canmatrix.compare.compare_db(B, A, ignore))
+    again = tree(canmatrix.compare.compare_db(A, B, ignore))
+    if again != ab:
+        return {"ab": again, "ba": ba, "note": "comparing the same two matrices again gives another result"}
+    return {"ab": ab, "ba": ba}
 
 
 def project(impl):
+    if isinstance(impl, dict) and "note" in impl:
+        return {k: v for k, v in impl.items() if k != "note"}
     return impl
 
 
